@@ -251,6 +251,23 @@ func runC07(c *core.Ctx) {
 		check("slices/as-dict-keys", "tuple-slices-sharing-storage", d)
 	}
 
+	// 3a'. dicts of every size class that hold a memoized value (a nested list) or themselves, referenced twice
+	for _, n := range sval.SizeClasses {
+		if n > 300 {
+			continue
+		}
+		d := mkContainer("dict", n, 500).(*starlark.Dict)
+		d.SetKey(starlark.String("nested"), starlark.NewList([]starlark.Value{starlark.MakeInt(n)}))
+		check(fmt.Sprintf("alias/dict-with-nested-list/%d", n), "aliasing", starlark.NewList([]starlark.Value{d, d}))
+		d2 := mkContainer("dict", n, 600).(*starlark.Dict)
+		d2.SetKey(starlark.String("self"), d2)
+		check(fmt.Sprintf("cycle/dict-containing-itself/%d", n), "self-reference", starlark.Tuple{d2, starlark.MakeInt(1), d2})
+		l := mkContainer("list", n, 700).(*starlark.List)
+		l.Append(l)
+		st := mkContainer("set", n, 800)
+		check(fmt.Sprintf("alias/set-and-cyclic-list/%d", n), "aliasing", starlark.Tuple{st, l, st, l})
+	}
+
 	// 3b. a host value that is one of its own arguments (encoded through PickleRecursive), followed by memoized
 	// values: shared containers, self-referential containers, further host values.
 	for k := 0; k < 6; k++ {
